@@ -56,6 +56,7 @@ def warm():
                     getattr(getattr(r, "severity", None), "name", None),
                     tuple(str(x) for x in getattr(r, "configuration", []) or []),
                     tuple(c.__name__ for c in type(r).__mro__[1:] if c.__module__.startswith("vsg.rules") and not c.__name__.startswith("rule_")),
+                    tuple(str(g) for g in getattr(r, "groups", []) or []),
                 )
             )
         except Exception:
